@@ -74,7 +74,7 @@ check(
     "engine-B",
     "exploration",
     "runtime monitoring under controlled-schedule execution: submission-history monitor: identity of submit outputs, registry size, launch log vs success markers and live processes, over seeded schedules and successive runs",
-    "Duplicates at any position, completed and aborted previous runs (with re-attached live processes) are replayed under seeded schedules; a second job object, a relaunch after success or a launch beside a live process is a violation. Held on the schedules explored; unexplored schedules are not covered.",
+    "Duplicates at any position, completed and aborted previous runs (with re-attached live processes) are replayed under seeded schedules; a second job object, a relaunch after success or a launch beside a live process is a violation. An Engine-A part runs 2-3 real scheduler processes submitting the same jobs on one workspace (bodies never overlap and never run again after success, judged on the append-only task log) and starts the job script a second time while the first body runs. Held on the schedules explored; unexplored schedules are not covered.",
     "Trusted: the simulation boundary (SimProcess writes the runner's markers; foreign processes are a driver-serialised second CounterToken object), the plan as ground truth, asyncio FIFO inside the loop.",
     "DESIGN.md §2.3, §3 C05",
 )
@@ -101,7 +101,7 @@ check(
     "engine-B",
     "exploration",
     "runtime monitoring under controlled-schedule execution: capacity ledger monitor (launch/exit/foreign acquire/release) plus on-disk recount at every quiescent point, with a foreign agent on the same token directory",
-    "The monitor's own ledger and the sum of the token files never exceed the total, for heterogeneous requests, two tokens per job and foreign acquisitions whose notification is still queued. Held on the schedules explored; unexplored schedules are not covered.",
+    "The monitor's own ledger and the sum of the token files never exceed the total, for heterogeneous requests, two tokens per job and foreign acquisitions whose notification is still queued. An Engine-A part shares one file token between 2-3 real scheduler processes with real job processes and sweeps the running sum of requests over the append-only task log. Held on the schedules explored; unexplored schedules are not covered.",
     "Trusted: the simulation boundary (SimProcess writes the runner's markers; foreign processes are a driver-serialised second CounterToken object), the plan as ground truth, asyncio FIFO inside the loop.",
     "DESIGN.md §2.3, §3 C08",
 )
@@ -110,7 +110,7 @@ check(
     "engine-B",
     "exploration",
     "runtime monitoring under controlled-schedule execution: conservation-at-quiescence monitor: token files, fresh recount, in-memory availability, waiting-with-capacity; observer-death detection",
-    "At terminal quiescence no token file is left, a fresh recount shows full capacity, no job waits while its request fits; covers failures, aborted starts, foreign files created before written, reclaim by another process, previous aborted runs. Held on the schedules explored; unexplored schedules are not covered.",
+    "At terminal quiescence no token file is left, a fresh recount shows full capacity, no job waits while its request fits; covers failures, aborted starts, foreign files created before written, reclaim by another process, previous aborted runs. An Engine-A part kills one of several real scheduler processes while its job holds the shared token: the survivors must drain their plans (hangs decided on quiescence certificates) and a fresh token object must count full capacity afterwards. Held on the schedules explored; unexplored schedules are not covered.",
     "Trusted: the simulation boundary (SimProcess writes the runner's markers; foreign processes are a driver-serialised second CounterToken object), the plan as ground truth, asyncio FIFO inside the loop.",
     "DESIGN.md §2.3, §3 C09",
 )
@@ -176,7 +176,7 @@ check(
     "runtime monitoring: reference filter evaluator beside the compiled pyparsing filter; before/after diff of real workspaces around 'jobs clean' and 'orphans' invoked through click",
     "Random filter expressions over tags/@state/@name (all four operators, and/or chains, both quote styles) are compiled by the real grammar and evaluated on random jobs against a "
     "reference written from the documented meaning; real job directories in every marker state (including failed + live pid), indexed by experiments with index and backup index, are "
-    "cleaned / pruned through the CLI and the deleted set is compared with the reference selection.",
+    "cleaned / pruned through the CLI and the deleted set is compared with the reference selection; layouts include job folders that are links left by the deprecation repair (indexed or not) and the --experiment restriction.",
     "Trusted: the reference evaluator (both readings of mixed and/or chains accepted, anchored regular expressions); 'running' = the process in the pid file is alive.",
     "DESIGN.md §3 C19",
 )
